@@ -138,8 +138,10 @@ def gen_case(rng, cid, nops, kind=None, slots=None, binsearch=None, mode=None, p
         universe = rng.choice([3, 6, 16, 16, 16, 40])
     else:
         universe = rng.choice([16, 16, 40, 100, 200])
-    lines = [f"case {kind}-{leaf}-{inner}-{binsearch}-{mode}-{cid}", f"cfg {kind} {leaf} {inner} {binsearch} {mode}"]
-    regs = [Reg(dup, mode), Reg(dup, mode)]
+    # the comparator object travels with the container: one case in four starts register 1 with another order
+    mode1 = rng.choice([0, 1, 2]) if rng.random() < 0.25 else mode
+    lines = [f"case {kind}-{leaf}-{inner}-{binsearch}-{mode}{mode1}-{cid}", f"cfg {kind} {leaf} {inner} {binsearch} {mode} {mode1}"]
+    regs = [Reg(dup, mode), Reg(dup, mode1)]
     serial = [0]
 
     def val():
@@ -182,23 +184,25 @@ def gen_case(rng, cid, nops, kind=None, slots=None, binsearch=None, mode=None, p
                                    rng.randrange(1, 60), 1, 2, leaf * (inner + 1) * (inner + 1)])
                 n = max(0, min(base + rng.choice([-1, 0, 0, 1]), 150))
                 if not dup:
-                    n = min(n, universe if mode != 2 else (universe + 1) // 2)
-                ks = sorted_run(rng, mode, dup, n, universe)
+                    n = min(n, universe if R.mode != 2 else (universe + 1) // 2)
+                ks = sorted_run(rng, R.mode, dup, n, universe)
                 es = [(k, val()) for k in ks]
                 lines.append(" ".join([f"bulk {r}"] + [fmt_ent(is_map, k, v) for k, v in es]))
                 R.es = [(k, v) for k, v in es]
             elif y < 0.48 and o != r:
                 lines.append(f"copy {r} {o}")
-                R.es = list(regs[o].es)
+                R.es, R.mode = list(regs[o].es), regs[o].mode
             elif y < 0.62:
                 lines.append(f"assign {r} {o}")
-                R.es = list(regs[o].es)
+                R.es, R.mode = list(regs[o].es), regs[o].mode
             elif y < 0.72:
                 lines.append(f"swap {r} {o}")
                 regs[r].es, regs[o].es = regs[o].es, regs[r].es
+                regs[r].mode, regs[o].mode = regs[o].mode, regs[r].mode
             elif y < 0.80:
                 lines.append(f"tswap {r} {o}")
                 regs[r].es, regs[o].es = regs[o].es, regs[r].es
+                regs[r].mode, regs[o].mode = regs[o].mode, regs[r].mode
             elif y < 0.90:
                 es = [(key(), val()) for _ in range(rng.randrange(0, 12))]
                 op = rng.choice(["insr", "rctor"])
@@ -236,7 +240,7 @@ def gen_case(rng, cid, nops, kind=None, slots=None, binsearch=None, mode=None, p
                     k = rng.choice(R.es)[0]
                     lo = R.lb(k)
                     hi = lo
-                    while hi < len(R.es) and not order_lt(mode, k, R.es[hi][0]):
+                    while hi < len(R.es) and not order_lt(R.mode, k, R.es[hi][0]):
                         hi += 1
                     rank = rng.randrange(lo, hi)
                 else:
